@@ -18,7 +18,6 @@ REPO = '/repo'
 ALLOWED_AXIOMS = {'propext', 'Classical.choice', 'Quot.sound'}
 FORBIDDEN = re.compile(r'\bsorry\b|\badmit\b|^\s*axiom\s|native_decide|bv_decide|implemented_by|\bunsafe\s|maxHeartbeats\s+0')
 ENV = dict(os.environ, CARGO_NET_OFFLINE='true')
-HARNESS_BIN = os.path.join(HARNESS, 'target', 'release', 'bdd-verif-harness')
 NCPU = os.cpu_count() or 4
 
 
@@ -29,7 +28,12 @@ def sh(cmd, cwd=None, timeout=None, input=None):
 
 
 def load_index():
-    return json.load(open(os.path.join(LEAN, 'BddVerif', 'Props', 'index.json')))
+    d = os.path.join(LEAN, 'BddVerif', 'Props', 'index')
+    return {f[:-5]: json.load(open(os.path.join(d, f))) for f in sorted(os.listdir(d)) if f.endswith('.json')}
+
+
+def harness_bin(pid):
+    return os.path.join(HARNESS, 'target', 'release', pid.lower())
 
 
 # ------------------------------------------------------------------------------------------------
@@ -81,9 +85,9 @@ def audit(pid, theorems):
     return res, ('' if rc == 0 else out[-2000:])
 
 
-def cargo_build():
-    lock_src = os.path.join(REPO, 'Cargo.lock')
-    rc, out = sh(['cargo', 'build', '--release', '--offline'], cwd=HARNESS, timeout=3000)
+def cargo_build(pid=None):
+    cmd = ['cargo', 'build', '--release', '--offline'] + (['--bin', pid.lower()] if pid else ['--bins'])
+    rc, out = sh(cmd, cwd=HARNESS, timeout=3000)
     return rc == 0, out
 
 
@@ -145,7 +149,7 @@ def generate(pid, tier, seed, case_file, cap=None):
         env['VERIF_CORPUS'] = corpus
     if cap:
         env['VERIF_CASE_CAP'] = str(cap)
-    p = subprocess.run([HARNESS_BIN, 'gen', pid, tier, str(seed), case_file], env=env,
+    p = subprocess.run([harness_bin(pid), 'gen', tier, str(seed), case_file], env=env,
                        stdout=subprocess.PIPE, stderr=subprocess.STDOUT, text=True)
     return p.returncode == 0, p.stdout
 
@@ -216,7 +220,7 @@ def check(pid, tier, seed):
             notes.append('leanchecker BddVerif.Props.%s: ok' % pid)
 
     # 3. correspondence + property predicate on the implementation's outputs
-    ok_cargo, out_cargo = cargo_build()
+    ok_cargo, out_cargo = cargo_build(pid)
     lines, verdicts = [], []
     stats = collections.Counter(); tags = collections.Counter(); fails = []; dis = []; bad = []; n_nontrivial = 0
     case_file = os.path.join(WORK, '%s.%s.cases' % (pid, tier))
@@ -328,12 +332,12 @@ def replay(pid, path):
         print('replay file records a broken tie, not an input: ' + '; '.join(rp.get('no_longer_checks', [])[:3]))
         # re-run the quick check: it reports whether the tie still fails
         return check(pid, 'quick', int(rp.get('seed', 1)))
-    ok_cargo, out = cargo_build()
+    ok_cargo, out = cargo_build(pid)
     ok_build, outb = lake_build(['drv_' + pid.lower()])
     if not (ok_cargo and ok_build):
         print('cannot build: ' + (out if not ok_cargo else outb)[-400:])
         return 1
-    p = subprocess.run([HARNESS_BIN, 'replay', rp['case']], stdout=subprocess.PIPE, stderr=subprocess.STDOUT, text=True, env=ENV)
+    p = subprocess.run([harness_bin(pid), 'replay', rp['case']], stdout=subprocess.PIPE, stderr=subprocess.STDOUT, text=True, env=ENV)
     fresh = p.stdout.strip().split('\n')[0]
     os.makedirs(WORK, exist_ok=True)
     f = os.path.join(WORK, pid + '.replay.cases')
